@@ -174,6 +174,10 @@ def _run_tool(tool, path, out, pooled=True):
         from amr_kitchen.mandoline import Mandoline
         r = Mandoline(path, fields=["u", "w"], serial=not pooled, verbose=0).slice(normal=0, fformat="return")
         return {k: _digest(v) for k, v in r.items()}
+    if tool == "mandoline2d":
+        from amr_kitchen.mandoline import Mandoline
+        r = Mandoline(path, fields=["u", "w", "grid_level"], serial=not pooled, verbose=0).slice(fformat="return")
+        return {k: _digest(v) for k, v in r.items()}
     if tool == "mandoline-plotfile":
         from amr_kitchen.mandoline import Mandoline
         Mandoline(path, fields=["all"], serial=not pooled, verbose=0).slice(normal=0, outfile=out, fformat="plotfile")
@@ -241,8 +245,9 @@ def run_tool_history(chk, sc, cfgseed, tool):
     for i, dn in enumerate(names):
         dirs[dn] = os.path.join(base, "run_" + dn)
         os.makedirs(dirs[dn])
-        ap = gamma.make_ap("A", FIELDS, classes, None, ndims=3, cross=(3, 3))
-        cfg = gamma.Config.draw(random.Random(cfgseed), ndims=3, payload="tame", dyadic=True)
+        nd = 2 if tool == "mandoline2d" else 3
+        ap = gamma.make_ap("A", FIELDS, classes, None, ndims=nd, cross=(3, 3))
+        cfg = gamma.Config.draw(random.Random(cfgseed), ndims=nd, payload="tame", dyadic=True)
         cfg.seed = cfgseed + 1000 * (i + 1)
         gamma.write_plotfile(os.path.join(dirs[dn], NAME), ap, cfg)
         if tool in ("taste", "taste-read") and i % 2 == 1:
